@@ -28,6 +28,11 @@ CHECKS = {
   "For every logical DOM the independent encoder varies compression per chunk (5 encodings incl. own LZ4-literal and zstd-raw-block writers), chunk order, class ids, referent numbering, PRNT order, META, unknown chunks, column order, service format, skipped PROP chunks and narrower numeric wire types; each file must pass the independent decoder (conformance of the spec codec's two halves) and then decode with rbx_binary to the DOM it describes.",
   "One degree of freedom at a time around a base encoding (thorough: full product on <=2-instance DOMs); forests <= 3/4 nodes; document-vs-implementation rows are known findings.",
   "5/C04"),
+ "C05": ("codec", "model_checking",
+  "bounded-exhaustive enumeration in both directions: every document the real rbx_xml writer emits for C02's plan enumeration is parsed by an independent XML parser (expat) and a value decoder written from docs/xml.md; every document an independent generator written from docs/xml.md emits for three logical DOMs over the product of its degrees of freedom is read by the real rbx_xml reader and compared with the logical DOM",
+  "Writer direction: structure (roblox/version, Item class + unique non-null referent, exactly one Properties, SharedStrings defining every used hash) and values (element names and child layouts per type, floats bit-exact, line ends as a conforming parser sees them) of every emitted document. Reader direction: referent naming schemes, property orders (all permutations on small nodes), indentation, Meta/External placement, XML declaration, Studio attributes, SharedStrings before/after Items, wrapped base64, every float spelling in every float position, string forms (escaped/CDATA x string/ProtectedString), forward references.",
+  "py/xmlspec.py is bound to docs/xml.md by its worked examples (self-check at every run); a SHOULD of the document (Color3uint8 high byte) is counted, not judged; types the document does not describe are outside the value check.",
+  "5/C05"),
  "C06": ("dbwalk", "model_checking",
   "complete enumeration of the database's serializable property names (canonical and alias spellings, every class) x alphabet values through both real codecs, comparing the two read-backs and the conversion closure",
   "Every class x every reachable serializable non-migrating property name x values of the declared type as a single-property instance, one all-properties instance per class and Ref topologies are written/read by rbx_binary and rbx_xml; the read-backs must agree and converting either to the other format and back must lose nothing.",
@@ -141,7 +146,7 @@ def main():
             {"name": "faults", "path": "harness/src/c13.rs", "serves_properties": ["C13"], "kind_free_text": "fault enumeration (truncation, corruption, read scripts, failing sinks, small universes) in forked workers under RLIMIT_AS with a tracking allocator (harness/src/crashpool.rs, alloctrack.rs)"},
             {"name": "dbwalk", "path": "harness/src/c16.rs", "serves_properties": ["C06", "C15", "C16"], "kind_free_text": "complete enumeration of the reflection database through the public rbx_reflection types and both codecs"},
             {"name": "serdex", "path": "harness/src/c17.rs", "serves_properties": ["C17"], "kind_free_text": "bounded-exhaustive value enumeration through serde entry points"},
-            {"name": "codec", "path": "harness/src/sweeps.rs", "serves_properties": ["C01", "C02", "C03", "C04", "C07", "C08", "C14"],
+            {"name": "codec", "path": "harness/src/sweeps.rs", "serves_properties": ["C01", "C02", "C03", "C04", "C05", "C07", "C08", "C14"],
              "kind_free_text": "bounded-exhaustive case enumeration (harness/src/codec.rs) through the real codecs in forked workers; expectations from plans + specdb"},
             {"name": "sched", "path": "harness/src/sched.rs", "serves_properties": ["C18", "C12"],
              "kind_free_text": "deterministic baton scheduler over real OS threads; stateless DFS over choice vectors with iterated preemption bound; yield points injected by cfg(rbx_dom_verif) shims in rbx_types"},
